@@ -239,6 +239,10 @@ type RR struct {
 	cur          *inst
 	recent       []*RunRec
 	overlapped   bool
+	parked       bool // the HoldRun-th run is waiting at the gate
+
+	holdCh   chan struct{}
+	holdOnce sync.Once
 }
 
 // World is one scenario's state: cells, rerunners, tracked resources, the
@@ -722,6 +726,53 @@ func (rr *RR) Stop() {
 	w.logLocked("stop-return", rr.Idx, 0, "")
 	w.mu.Unlock()
 	w.bump()
+}
+
+// PinnedStops forces the "concurrent Stops while a run is executing" order:
+// wait until the rerunner's HoldRun-th run is parked inside the compute
+// function, start Stop #1 and wait until it has passed the
+// rerunner.stop.cancelled hook (it is inside Stop, on its way to r.mu), start
+// k-1 more Stops from other goroutines, give them a moment (pacing only),
+// then release the parked run and join. The verdict is the ordinary clause
+// (ii) of RR.Stop: no Stop call may return while a run is in progress.
+func (rr *RR) PinnedStops(k int, stopHookVisits func() int64) {
+	w := rr.w
+	wait := func(max time.Duration, cond func() bool) bool {
+		dl := time.Now().Add(max)
+		for !cond() {
+			if time.Now().After(dl) {
+				return false
+			}
+			time.Sleep(20 * time.Microsecond)
+		}
+		return true
+	}
+	release := func() { rr.holdOnce.Do(func() { close(rr.holdCh) }) }
+	parked := wait(100*time.Millisecond, func() bool {
+		w.mu.Lock()
+		defer w.mu.Unlock()
+		return rr.parked
+	})
+	w.mu.Lock()
+	if parked {
+		w.Stats["pinned_stop_families"]++
+	} else {
+		w.Stats["pinned_stop_families_run_not_parked"]++
+	}
+	w.mu.Unlock()
+	before := stopHookVisits()
+	var wg sync.WaitGroup
+	var returned int32
+	wg.Add(1)
+	go func() { defer wg.Done(); rr.Stop() }()
+	wait(30*time.Millisecond, func() bool { return stopHookVisits() > before })
+	for i := 1; i < k; i++ {
+		wg.Add(1)
+		go func() { defer wg.Done(); rr.Stop(); atomic.AddInt32(&returned, 1) }()
+	}
+	wait(1500*time.Microsecond, func() bool { return int(atomic.LoadInt32(&returned)) == k-1 })
+	release()
+	wg.Wait()
 }
 
 // Purge calls reactive.PurgeCache with the context of the rerunner's latest
